@@ -33,7 +33,9 @@ Inductive obs :=
 | OBool (b : bool)
 | OExc (e : exc)
 | OApx (k : kind).                    (* model/spec only: some value of kind k, or an
-                                         arithmetic exception on the unmodelled values *)
+                                         arithmetic exception on the unmodelled values
+                                         (e.g. decimal.InvalidOperation when a Decimal is
+                                         ordered against a float NaN) *)
 
 Inductive out := Paths (l : list obs).
 
@@ -83,7 +85,7 @@ Definition admits (m i : obs) : bool :=
   | OApx KDec, ODec _ => true
   | OApx KBool, OBool _ => true
   | OApx KExact, (OInt _ | ORatio _ _) => true
-  | OApx (KFlt | KDec | KExact), OExc e => arith_exc e
+  | OApx _, OExc e => arith_exc e
   | OApx _, _ => false
   | _, _ => obs_eqb m i
   end.
